@@ -50,16 +50,23 @@ def corpus_by_class(accepted_only=True):
     return result
 
 
-def compose_of(obj):
+def compose_of(obj, cls=None):
     """'compose of the same type' (DESIGN §3): the object's own compose, or the library's primitive for
-    parser-only enum factories."""
+    parser-only enum factories (numeric: compose_numeric_enum_coded; opaque string codes:
+    compose_string_enum_coded with the factory's prefix width)."""
     import enum  # pylint: disable=import-outside-toplevel
     if hasattr(obj, 'compose'):
         return bytes(obj.compose())
-    if isinstance(obj, enum.Enum) and hasattr(obj.value, 'get_code_size'):
+    if isinstance(obj, enum.Enum) and hasattr(obj.value, 'code'):
         from cryptoparser.common.parse import ComposerBinary  # pylint: disable=import-outside-toplevel
         composer = ComposerBinary()
-        composer.compose_numeric_enum_coded(obj)
+        if isinstance(obj.value.code, str):
+            width = cls.get_param().item_num_size if cls is not None and hasattr(cls, 'get_param') else 1
+            composer.compose_string_enum_coded(obj, width)
+        elif hasattr(obj.value, 'get_code_size'):
+            composer.compose_numeric_enum_coded(obj)
+        else:
+            composer.compose_numeric(obj.value.code, cls.get_byte_num())
         return bytes(composer.composed)
     raise TypeError('no compose for %r' % type(obj))
 
